@@ -120,7 +120,7 @@ def gen_determinism(rng):
     glyphs = e2e.gen_glyphset(rng, n_glyphs=rng.randint(2, 4), gradients=fmt != "glyf_colr_0", groups=fmt == "glyf_colr_1")
     for i, g in enumerate(glyphs):
         g.codepoints = (0x1F600 + i,)
-    vary = rng.choice(["argv-order", "hash-seed", "build-dir", "cwd", "jobs"])
+    vary = rng.choice(["argv-order", "hash-seed", "build-dir", "cwd", "cwd", "jobs"])
     return {"glyphs": glyphs, "fmt": fmt, "vary": vary, "seed": rng.randrange(1 << 20)}
 
 
@@ -144,12 +144,19 @@ def run_twice(glyphs, fmt, vary, seed):
 
     rng = random.Random(seed)
     with tempfile.TemporaryDirectory(prefix="verif_det_") as d:
-        os.makedirs(os.path.join(d, "src"))
+        # sources live in two directories whose order disagrees with the order of the file
+        # names (so "sorted by how the path was spelled" and "sorted by absolute path" differ)
+        for sub in ("src", "src/d1", "src/d2"):
+            os.makedirs(os.path.join(d, sub), exist_ok=True)
         files = []
         for i, g in enumerate(glyphs):
-            p = os.path.join(d, "src", "emoji_u%x.svg" % g.codepoints[0])
+            sub = "src/d1" if (len(glyphs) - 1 - i) % 2 == 0 else "src/d2"
+            p = os.path.join(d, sub, "emoji_u%x.svg" % g.codepoints[0])
             open(p, "w").write(e2e.svg_text(g))
             files.append(p)
+        abs_files = list(files)
+        if vary == "cwd" or rng.random() < 0.5:
+            files = [os.path.relpath(p, d) for p in abs_files]
         b1 = os.path.join(d, "build1")
         a, err = _cli(d, files, fmt, b1, {"PYTHONHASHSEED": "1"})
         if a is None:
@@ -168,8 +175,13 @@ def run_twice(glyphs, fmt, vary, seed):
             b2 = os.path.join(d, "deep", "er", "dir", "b")
             os.makedirs(os.path.dirname(b2))
         elif vary == "cwd":
-            cwd2 = os.path.join(d, "elsewhere")
-            os.makedirs(cwd2)
+            # the same files, named relative to another working directory
+            cands = [os.path.join(d, "elsewhere"), os.path.join(d, "src", "d1"), os.path.join(d, "src", "d2"), os.path.join(d, "src")]
+            os.makedirs(cands[0], exist_ok=True)
+            # prefer a directory from which the spelled paths sort differently
+            differs = [c for c in cands if sorted(abs_files, key=lambda p: os.path.relpath(p, c)) != sorted(abs_files)]
+            cwd2 = rng.choice(differs) if differs and rng.random() < 0.8 else rng.choice(cands)
+            files2 = [os.path.relpath(p, cwd2) for p in abs_files]
         elif vary == "jobs":
             jobs = 1
         b, err = _cli(d, files2, fmt, b2, env2, cwd=cwd2, jobs=jobs)
